@@ -105,12 +105,21 @@ structure EigenR (α : Type) where
       3 vectors from m[0][1], 4 neither (unreachable: the diagonal test catches it) -/
   branch : Nat
 
+/-- the eigenvalue pair of `Matrix.Eigen` after `solveQuadraticFormula`: when it reports no real root
+although the off-diagonal entries have the same sign (the discriminant `(a-e)² + 4bd ≥ 0` was rounded
+below zero), both eigenvalues are `(a + e)/2` (fix 2c3bd2a). -/
+def eigenvalues (m : Mat α) : Option α × Option α :=
+  let r := solveQuadratic 1 (-m.a - m.e) (mdet m)
+  match r.1 with
+  | none => if 0 ≤ m.b * m.d then (some ((m.a + m.e) / 2), some ((m.a + m.e) / 2)) else r
+  | some _ => r
+
 /-- util.go `Matrix.Eigen`. `solveQuadratic` never returns `(NaN, x)` (`solveQuadratic_fst_none` in the
-proofs), so the first component decides the NaN case. -/
+proofs), so the first component decides the NaN case (no real eigenvalues: `b·d < 0`). -/
 def eigen (m : Mat α) : EigenR α :=
   if equal m.d 0 && equal m.b 0 then ⟨some m.a, some m.e, ⟨1, 0⟩, ⟨0, 1⟩, 0⟩
   else
-    let r := solveQuadratic 1 (-m.a - m.e) (mdet m)
+    let r := eigenvalues m
     match r.1 with
     | none => ⟨none, none, ⟨0, 0⟩, ⟨0, 0⟩, 1⟩
     | some l1 =>
